@@ -6,8 +6,8 @@ _SRC = "c12_xml.c"
 
 CFG = dict(
     stages=[
-        seq("asan", "asan", _SRC, 40000, 4000000),
-        seq("rel", "rel", _SRC, 10000, 1000000, mode="relprog"),  # mode only selects another PRNG stream
+        seq("asan", "asan", _SRC, 40000, 16000000),
+        seq("rel", "rel", _SRC, 10000, 4000000, mode="relprog"),  # mode only selects another PRNG stream
     ],
     rule=("case = (element tree, per-node action plan, options.max_depth). The tree (1-60 elements; chain-biased, bushy or "
           "wide) takes its names from a small pool {a, aa, ab, aab, abc, a1, a-b, a.b, a:b, b, b1, ba, Key, KeyMarker, ...}; a "
